@@ -1,0 +1,83 @@
+//go:build verif
+
+package snps
+
+//@ # C03: one line per record, in arrival order, carrying the record's index; the line lists exactly the columns whose
+//@ # encoded symbols are disjoint ((ref & q) < 16), ascending, each rendered <ref symbol><1-based position><query symbol>.
+//@ # The k-th listed SNP is pinned through count(): the entry at index (#disjoint columns left of j) is column j's rendering.
+//@ func getSNPs
+//@   modifies cSNPs, cErr
+//@   loop 1:
+//@     invariant len(sent(cErr)) == 0 && len(sent(cSNPs)) == range_i
+//@     invariant forall(t, 0, range_i, len(recv(cFR)[t].Seq) == len(refSeq) && sent(cSNPs)[t].idx == recv(cFR)[t].Idx && sent(cSNPs)[t].queryname == recv(cFR)[t].ID)
+//@   loop 2:
+//@     invariant len(SNPs) == count(k, 0, i, (refSeq[k] & FR.Seq[k]) < 16)
+//@     invariant forall(j, 0, i, implies((refSeq[j] & FR.Seq[j]) < 16, SNPs[count(k, 0, j, (refSeq[k] & FR.Seq[k]) < 16)] == DA[refSeq[j]] + itoa(j+1) + DA[FR.Seq[j]]))
+//@   before send#2: assert [line.len] len(SL.snps) == count(k, 0, len(refSeq), (refSeq[k] & FR.Seq[k]) < 16)
+//@   before send#2: assert [line.content] forall(j, 0, len(refSeq), implies((refSeq[j] & FR.Seq[j]) < 16, SL.snps[count(k, 0, j, (refSeq[k] & FR.Seq[k]) < 16)] == DA[refSeq[j]] + itoa(j+1) + DA[FR.Seq[j]]))
+//@   ensures implies(len(sent(cErr)) == 0, len(sent(cSNPs)) == len(recv(cFR)))
+//@   ensures implies(len(sent(cErr)) == 0, forall(t, 0, len(recv(cFR)), len(recv(cFR)[t].Seq) == len(refSeq) && sent(cSNPs)[t].idx == recv(cFR)[t].Idx && sent(cSNPs)[t].queryname == recv(cFR)[t].ID))
+//@   ensures len(sent(cErr)) <= 1
+//@   ensures implies(len(sent(cErr)) == 1, sent(cErr)[0] != nil && len(sent(cSNPs)) < len(recv(cFR)) && len(recv(cFR)[len(sent(cSNPs))].Seq) != len(refSeq))
+
+//@ # C12/C19/C03: the re-ordering writer. For EVERY arrival order of the lines (recv(cSNPs) is an arbitrary sequence whose
+//@ # idx fields are a permutation of 0..n-1, posOf being the inverse permutation) the bytes written are the header followed
+//@ # by the rows in idx order; a failed Write is reported on cErr and the done signal is withheld.
+//@ spec posOf(k int) int uninterpreted
+//@ spec snpRow(name string, line string) string = name + "," + line + "\n"
+//@ func writeOutput
+//@   modifies w, cErr, cWriteDone
+//@   requires forall(k, 0, len(recv(cSNPs)), 0 <= posOf(k) && posOf(k) < len(recv(cSNPs)) && recv(cSNPs)[posOf(k)].idx == k)
+//@   requires forall(a, 0, len(recv(cSNPs)), 0 <= recv(cSNPs)[a].idx && recv(cSNPs)[a].idx < len(recv(cSNPs)) && posOf(recv(cSNPs)[a].idx) == a)
+//@   loop 1:
+//@     invariant 0 <= counter && counter <= len(recv(cSNPs)) && !in(outputMap, counter)
+//@     invariant forallint(k, in(outputMap, k) == (counter <= k && k < len(recv(cSNPs)) && posOf(k) < range_i))
+//@     invariant forall(k, counter, len(recv(cSNPs)), implies(posOf(k) < range_i, outputMap[k] == recv(cSNPs)[posOf(k)]))
+//@     invariant forall(k, 0, counter, posOf(k) < range_i)
+//@     invariant !failed(w) && len(sent(cErr)) == 0 && len(sent(cWriteDone)) == 0
+//@     invariant len(written(w)) == 1 + counter && written(w)[0] == "query,SNPs\n"
+//@     invariant forall(k, 0, counter, written(w)[1+k] == snpRow(recv(cSNPs)[posOf(k)].queryname, join(recv(cSNPs)[posOf(k)].snps, "|")))
+//@   loop 2:
+//@     invariant 0 <= counter && counter <= len(recv(cSNPs))
+//@     invariant forallint(k, in(outputMap, k) == (counter <= k && k < len(recv(cSNPs)) && posOf(k) < range_i + 1))
+//@     invariant forall(k, counter, len(recv(cSNPs)), implies(posOf(k) < range_i + 1, outputMap[k] == recv(cSNPs)[posOf(k)]))
+//@     invariant forall(k, 0, counter, posOf(k) < range_i + 1)
+//@     invariant !failed(w) && len(sent(cErr)) == 0 && len(sent(cWriteDone)) == 0
+//@     invariant len(written(w)) == 1 + counter && written(w)[0] == "query,SNPs\n"
+//@     invariant forall(k, 0, counter, written(w)[1+k] == snpRow(recv(cSNPs)[posOf(k)].queryname, join(recv(cSNPs)[posOf(k)].snps, "|")))
+//@     decreases len(recv(cSNPs)) - counter
+//@   ensures [c19.reported] implies(failed(w), len(sent(cErr)) >= 1 && len(sent(cWriteDone)) == 0)
+//@   ensures [c12.done] implies(!failed(w), len(sent(cErr)) == 0 && len(sent(cWriteDone)) == 1)
+//@   ensures [c12.order] implies(!failed(w), len(written(w)) == 1 + len(recv(cSNPs)) && written(w)[0] == "query,SNPs\n" && forall(k, 0, len(recv(cSNPs)), written(w)[1+k] == snpRow(recv(cSNPs)[posOf(k)].queryname, join(recv(cSNPs)[posOf(k)].snps, "|"))))
+
+//@ # C13/C19 aggregate SNP writer: counter = number of records; the list of keys is a duplicate-free enumeration of the
+//@ # counting map, sorted (the comparator parses positions: only "permutation" is assumed of that sort); a row is written
+//@ # exactly for the keys whose count/counter reaches the threshold, as <key>,<frequency to 9 decimals>.
+//@ func aggregateWriteOutput
+//@   modifies w, cErr, cWriteDone
+//@   ghost K string = arbitrary
+//@   ghost gOcc int = 0
+//@   loop 1:
+//@     invariant !failed(w) && len(sent(cWriteDone)) == 0 && len(written(w)) == 1 && counter == float64(range_i)
+//@     invariant [c13.count] gOcc >= 0 && in(propMap, K) == (gOcc > 0) && implies(gOcc > 0, propMap[K] == float64(gOcc))
+//@   loop 2:
+//@     invariant !failed(w) && len(sent(cWriteDone)) == 0 && len(written(w)) == 1 && counter == float64(range_i1 + 1)
+//@     invariant [c13.count] gOcc >= 0 && in(propMap, K) == (gOcc > 0) && implies(gOcc > 0, propMap[K] == float64(gOcc))
+//@     do-start gOcc = gOcc + ite(snp == K, 1, 0)
+//@   loop 3:
+//@     invariant !failed(w) && len(sent(cWriteDone)) == 0 && len(written(w)) == 1 && freshslice(order)
+//@     invariant len(order) == range_i && forall(j, 0, range_i, order[j] == mapkey(j) && in(propMap, order[j]))
+//@   loop 4:
+//@     invariant !failed(w) && len(sent(cWriteDone)) == 0
+//@     invariant len(written(w)) == 1 + count(k, 0, range_i, !(propMap[order[k]] / counter < threshold))
+//@   after call:SliceStable#1: assert [keys.permuted] forall(j, 0, len(order), 0 <= sortperm(j) && sortperm(j) < len(order) && in(propMap, order[j]))
+//@   after call:Write#2: assert [row] !(propMap[snp] / counter < threshold) && written(w)[len(written(w))-1] == snp + "," + fmtfloat(propMap[snp] / counter) + "\n"
+//@   after call:Write#2: assert [c13.freq] counter == float64(len(recv(cSNPs))) && implies(snp == K, gOcc > 0 && written(w)[len(written(w))-1] == K + "," + fmtfloat(float64(gOcc) / float64(len(recv(cSNPs)))) + "\n")
+//@   ensures [c19.reported] implies(failed(w), len(sent(cErr)) >= 1 && len(sent(cWriteDone)) == 0)
+//@   before send#3: assert [c13.rows] !failed(w) && len(written(w)) == 1 + count(k, 0, len(order), !(propMap[order[k]] / counter < threshold))
+
+//@ # C18: validation prefix of the entry point (everything before the first goroutine): a --reference with more than one
+//@ # record is refused; past the check exactly one reference record exists (so refs[0] cannot panic).
+//@ func SNPs prefix
+//@   modifies everything
+//@   after if#2: assert [c18.oneref] len(refs) == 1
